@@ -368,7 +368,7 @@ def probe_street_validation(res):
 
 
 def make_monitors():
-    return [DealMonitor()]
+    return [driver.Observer(0.1), DealMonitor()]
 
 
 def gen_kwargs(rng):
